@@ -170,6 +170,29 @@ class FaithfulBlockPolicy:
         return ("done",)
 
 
+ECHO_SHAPES = ["last", "first_payload", "cla", "cmd", "cla_cmd", "short", "long", "empty", "header_only",
+               "payload_only", "reversed", "upper_bit"]
+
+
+def bad_echo(apdu, shape):
+    """An answer to ECHO that is not the APDU that was sent."""
+    a = bytes(apdu)
+    return {
+        "last": a[:-1] + bytes([a[-1] ^ 1]),
+        "first_payload": a[:2] + bytes([a[2] ^ 0x20]) + a[3:] if len(a) > 2 else a + b"\x00",
+        "cla": bytes([a[0] ^ 0x60]) + a[1:],
+        "cmd": a[:1] + bytes([a[1] ^ 0xA6]) + a[2:],
+        "cla_cmd": b"\x00\x00" + a[2:],
+        "short": a[:-1],
+        "long": a + b"\x00",
+        "empty": b"",
+        "header_only": a[:2],
+        "payload_only": a[2:],
+        "reversed": a[:2] + a[2:][::-1],
+        "upper_bit": a[:2] + bytes(b | 0x80 for b in a[2:]),
+    }[shape]
+
+
 class SimDevice:
     def __init__(self, platform="ledger", mode=MODE_SIGNER, seed=1):
         self.platform = platform
@@ -183,6 +206,7 @@ class SimDevice:
         self.pin = b"1234567a"
         self.pinbuf = bytearray(16)
         self.echo_ok = True
+        self.echo_shape = "last"      # how a wrong echo differs from what was sent (see bad_echo)
         self.unlocked = False
         self.autoexec_mode = MODE_SIGNER     # mode after EXIT_MENU(autoexec) from bootloader
         self.exit_modes = []                 # scripted modes after successive exits
@@ -299,7 +323,7 @@ class SimDevice:
         if self.platform == "sgx":
             return self._sgx_boot(cmd, data, apdu)
         if cmd == 0x02:   # ECHO
-            return 0x9000, (apdu if self.echo_ok else apdu[:-1] + bytes([apdu[-1] ^ 1]))
+            return 0x9000, (apdu if self.echo_ok else bad_echo(apdu, self.echo_shape))
         if cmd == 0x45:   # RETRIES
             return 0x9000, self._hdr(cmd, self.retries)
         if cmd == 0x41:   # SEND_PIN
@@ -332,7 +356,7 @@ class SimDevice:
 
     def _sgx_boot(self, cmd, data, apdu):
         if cmd == 0xA4:   # SGX_ECHO
-            return 0x9000, (apdu if self.echo_ok else apdu[:-1] + bytes([apdu[-1] ^ 1]))
+            return 0x9000, (apdu if self.echo_ok else bad_echo(apdu, self.echo_shape))
         if cmd == 0xA2:
             return 0x9000, self._hdr(cmd, self.retries)
         if cmd == 0xA3:   # SGX_UNLOCK [0, pin]
